@@ -267,9 +267,9 @@ pub fn worker_main(args: &[String]) -> i32 {
     let mut violations: BTreeMap<String, Value> = BTreeMap::new();
     let out = std::io::stdout();
     use std::io::Write;
-    let mut out = out.lock();
+    let mut out = out; // not locked across runs: code under test may print
 
-    let mut handle = |run: &IoRun, stats: &mut Stats, violations: &mut BTreeMap<String, Value>, out: &mut std::io::StdoutLock| {
+    let mut handle = |run: &IoRun, stats: &mut Stats, violations: &mut BTreeMap<String, Value>, out: &mut std::io::Stdout| {
         let (reports, h) = exec_run(&ctx, run, stats);
         let _ = writeln!(out, "{}", run_hash_line(run.index, h));
         if let Some(v) = reports.iter().find_map(|r| r.violation.clone()) {
